@@ -157,6 +157,49 @@ func (r refPolicy) forbidden(a netip.Addr) (bool, string) {
 	return false, ""
 }
 
+// boundaryCases derives literal coverts and resolver scripts from the prefixes of a policy.
+func boundaryCases(pol policy) ([]string, []resolverScript) {
+	var lits []string
+	var scripts []resolverScript
+	seen := map[string]bool{}
+	for _, raw := range append(append([]string{}, pol.block...), pol.allow...) {
+		pf, err := netip.ParsePrefix(strings.TrimSpace(raw))
+		if err != nil {
+			continue
+		}
+		pf = pf.Masked()
+		first := pf.Addr()
+		// last address of the prefix
+		b := first.AsSlice()
+		for i := pf.Bits(); i < len(b)*8; i++ {
+			b[i/8] |= 1 << (7 - uint(i%8))
+		}
+		last, _ := netip.AddrFromSlice(b)
+		for _, ad := range []netip.Addr{first, last, first.Prev(), last.Next()} {
+			if !ad.IsValid() || seen[ad.String()] {
+				continue
+			}
+			seen[ad.String()] = true
+			forms := []string{ad.String()}
+			if ad.Is4() {
+				a4 := ad.As4()
+				forms = append(forms, "::ffff:"+ad.String(), fmt.Sprintf("::ffff:%02x%02x:%02x%02x", a4[0], a4[1], a4[2], a4[3]), fmt.Sprintf("64:ff9b::%02x%02x:%02x%02x", a4[0], a4[1], a4[2], a4[3]))
+			} else if ad.Is4In6() {
+				forms = append(forms, ad.Unmap().String())
+			}
+			for _, f := range forms {
+				if strings.Contains(f, ":") {
+					lits = append(lits, "["+f+"]:443", f+":443")
+				} else {
+					lits = append(lits, f+":443", f+":0")
+				}
+				scripts = append(scripts, resolverScript{"answer=" + f, []string{f, f}}, resolverScript{"rebind-to=" + f, []string{"93.184.216.34", f}})
+			}
+		}
+	}
+	return lits, scripts
+}
+
 type nopConn struct{ net.Conn }
 
 func (nopConn) RemoteAddr() net.Addr { return &net.TCPAddr{IP: net.IPv4(203, 0, 113, 7), Port: 5555} }
@@ -172,7 +215,17 @@ func main() {
 		ref := mkRef(pol)
 		conf := &lib.RegConfig{EnableIPv4: true, EnableIPv6: true, CovertBlocklistSubnets: pol.block, CovertAllowlistSubnets: pol.allow, CovertBlocklistDomains: pol.domains}
 		lib.VerifParseBlocklists(conf)
-		for _, c := range cs {
+		pcs, pres := cs, resolvers
+		if a.Thorough() {
+			// thorough: for every prefix of this policy (block and allow lists) the first and last address inside and
+			// the neighbours just outside, as literal coverts in every textual family form (plain, bracketed,
+			// IPv4-mapped, NAT64-embedded for v4) and as resolver answers for a name (alone and as the second,
+			// "rebound" answer)
+			bl, br := boundaryCases(pol)
+			pcs = append(append([]string{}, cs...), bl...)
+			pres = append(append([]resolverScript{}, resolvers...), br...)
+		}
+		for _, c := range pcs {
 			// literal inputs need no resolver script; names get every script
 			isName := false
 			if h, _, err := net.SplitHostPort(c); err == nil {
@@ -182,9 +235,9 @@ func main() {
 				}
 				isName = net.ParseIP(hh) == nil
 			}
-			scripts := resolvers[:1]
+			scripts := pres[:1]
 			if isName {
-				scripts = resolvers
+				scripts = pres
 			}
 			for _, rs := range scripts {
 				idx++
